@@ -177,6 +177,20 @@ def compare(facts, res, rule, fa, fb, only=None, canon_a=None, canon_b=None, wha
     bound); two siblings that differ on both sides without any near match have been restructured, which this rule
     cannot judge: analysis broken (exit 2), never a verdict."""
     inl = one_sided_helpers(facts, fa, fb)
+    # a multi-statement helper that exists on one side only and is called here: that side was restructured (code moved into the
+    # helper); atoms of a call and of the code it replaced cannot be matched, and guessing would raise false alarms
+    ca, cb = fa.get("cls"), fb.get("cls")
+    if ca and cb and ca != cb:
+        na = {m["name"] for m in facts.methods_of(ca) if tbf.body(m) is not None}
+        nb = {m["name"] for m in facts.methods_of(cb) if tbf.body(m) is not None}
+        for f_, own, other in ((fa, na, nb), (fb, nb, na)):
+            for x in walk(tbf.body(f_)):
+                if x.get("k") in ("CallExpr", "CXXMemberCallExpr"):
+                    nm = tbf.callee_name(x)
+                    base = tbf.call_base(x)
+                    if nm in own and nm not in other and nm not in inl and (base is None or strip(base).get("k") == "CXXThisExpr"):
+                        raise AnalysisBroken("%s calls the helper %s(), which only its own class has and which is not a single expression: part of %s was moved into it on one side only; "
+                                             "the sibling comparison with %s cannot follow - re-confirm by reading" % (f_["qname"], nm, f_["name"], (fb if f_ is fa else fa)["qname"]))
     A = atoms(facts, fa, only, canon_a, inl)
     B = atoms(facts, fb, only, canon_b, inl)
     res.instance(rule, "%s vs %s" % (fa["qname"], fb["qname"]), facts.loc(fb), "%d / %d atoms%s%s" % (len(A), len(B), (" restricted to " + ",".join(only)) if only else "", (" ; inlined one-sided helpers " + ",".join(sorted(inl))) if inl else ""))
